@@ -330,6 +330,15 @@ def bidSurplus (env : Env) (p : Params) (now : Int) (b : Bal) (a : Auction) (bid
         | none => .err
         | some b3 => .ok b3 (touch p now p.fwdDur { a with bidder := bidder, bid := amt })
 
+/-- a bank step the code only performs under a condition -/
+def sendIf (c : Prop) [Decidable c] (b : Bal) (frm to : Addr) (d : Denom) (n : Int) : Option Bal :=
+  if c then send b frm to d n else some b
+
+/-- debt coins a forward collateral bid hands back to the initiator:
+    `MinInt(bidIncrement, CorrespondingDebt)` while the corresponding debt is positive -/
+def fwdDebtReturn (a : Auction) (amt : Int) : Int :=
+  if 0 < a.debt then (if amt - a.bid < a.debt then amt - a.bid else a.debt) else 0
+
 /-- `PlaceForwardBidCollateral` (only dispatched to when `bid ≠ maxBid`) -/
 def bidCollateralFwd (env : Env) (p : Params) (now : Int) (b : Bal) (a : Auction) (bidder : Addr)
     (denom : Denom) (amt : Int) : BidRes :=
@@ -341,16 +350,14 @@ def bidCollateralFwd (env : Env) (p : Params) (now : Int) (b : Bal) (a : Auction
     match (if bidder ≠ a.bidder ∧ a.bid ≠ 0 then refund env b bidder a.bidder a.bidD a.bid else some b) with
     | none => .err
     | some b1 =>
-      let incr := amt - a.bid
-      match send b1 bidder a.initiator a.bidD incr with
+      match send b1 bidder a.initiator a.bidD (amt - a.bid) with
       | none => .err
       | some b2 =>
-        let ret := if 0 < a.debt then (if incr < a.debt then incr else a.debt) else 0
-        match (if 0 < a.debt then send b2 env.M a.initiator a.debtD ret else some b2) with
+        match sendIf (0 < a.debt) b2 env.M a.initiator a.debtD (fwdDebtReturn a amt) with
         | none => .err
         | some b3 =>
-          let a1 := { a with debt := a.debt - ret, bidder := bidder, bid := amt }
-          .ok b3 (touch p now (if a1.bid = a1.maxBid then p.revDur else p.fwdDur) a1)
+          .ok b3 (touch p now (if amt = a.maxBid then p.revDur else p.fwdDur)
+                    { a with debt := a.debt - fwdDebtReturn a amt, bidder := bidder, bid := amt })
 
 /-- the payout loop of a reverse bid: positive parts only -/
 def payAll (env : Env) (d : Denom) : Bal → List Addr → List Int → Option Bal
@@ -380,6 +387,22 @@ def bidCollateralRev (env : Env) (p : Params) (now : Int) (b : Bal) (a : Auction
         | none => .err
         | some b2 => .ok b2 (touch p now p.revDur { a with bidder := bidder, lot := amt })
 
+/-- debt coins the first bid of a debt auction hands back to the initiator:
+    `MinInt(Bid, CorrespondingDebt)` when the standing bidder is still the initiator module -/
+def debtReturn (a : Auction) : Int :=
+  if a.bidder = a.initiator then (if a.bid < a.debt then a.bid else a.debt) else 0
+
+/-- "New bidder pays back old bidder" of a debt auction: on the first bid the old bidder is the
+    initiator's module address and is paid module-to-module -/
+def refundDebt (env : Env) (b : Bal) (a : Auction) (bidder : Addr) : Option Bal :=
+  if bidder ≠ a.bidder then
+    match send b bidder env.M a.bidD a.bid with
+    | none => none
+    | some b1 =>
+      if a.bidder = a.initiator then send b1 env.M a.initiator a.bidD a.bid
+      else sendM2A env b1 env.M a.bidder a.bidD a.bid
+  else some b
+
 /-- `PlaceBidDebt` (the initial bidder is the initiator's module address) -/
 def bidDebt (env : Env) (p : Params) (now : Int) (b : Bal) (a : Auction) (bidder : Addr)
     (denom : Denom) (amt : Int) : BidRes :=
@@ -387,20 +410,13 @@ def bidDebt (env : Env) (p : Params) (now : Int) (b : Bal) (a : Auction) (bidder
   else if amt > maxLot a.lot p.incD then .err
   else if amt < 0 then .err
   else
-    match (if bidder ≠ a.bidder then
-             (match send b bidder env.M a.bidD a.bid with
-              | none => none
-              | some b1 =>
-                if a.bidder = a.initiator then send b1 env.M a.initiator a.bidD a.bid
-                else sendM2A env b1 env.M a.bidder a.bidD a.bid)
-           else some b) with
+    match refundDebt env b a bidder with
     | none => .err
     | some b1 =>
-      let ret := if a.bidder = a.initiator then (if a.bid < a.debt then a.bid else a.debt) else 0
-      match (if a.bidder = a.initiator then send b1 env.M a.initiator a.debtD ret else some b1) with
+      match sendIf (a.bidder = a.initiator) b1 env.M a.initiator a.debtD (debtReturn a) with
       | none => .err
       | some b2 =>
-        .ok b2 (touch p now p.fwdDur { a with debt := a.debt - ret, bidder := bidder, lot := amt })
+        .ok b2 (touch p now p.fwdDur { a with debt := a.debt - debtReturn a, bidder := bidder, lot := amt })
 
 /-- the dispatch of `PlaceBid` -/
 def bidDispatch (env : Env) (p : Params) (now : Int) (b : Bal) (a : Auction) (bidder : Addr)
